@@ -725,13 +725,14 @@ fn check_random_chance(p: f64, seed: u64) -> Vec<(String, String, Value)> {
                 json!({"chance": p, "tape": []}),
             ));
         }
-        // whatever the sampling scheme: a positive probability fires on the smallest generator word, a probability
-        // below one does not fire on the largest (a probability rounded to 0 or 1 on some grid fails this)
-        if p > 0.0 && at_zero == Some(false) {
-            out.push((format!("{} never-fires", head), format!("RandomChance({}) does not fire even when the generator returns its smallest word", p), json!({"chance": p, "tape": []})));
+        // whatever the sampling scheme: a positive probability fires on at least one end of the word range, a
+        // probability below one spares at least one end (a probability rounded to 0 or 1 on some grid fails this)
+        // (either end of the word range may be the "firing" end, depending on the sampling scheme)
+        if p > 0.0 && fired == 0 && at_zero == Some(false) && at_max == Some(false) {
+            out.push((format!("{} never-fires", head), format!("RandomChance({}) fires for no generator word of the sweep, not even the smallest or the largest one", p), json!({"chance": p, "tape": []})));
         }
-        if p < 1.0 && at_max == Some(true) {
-            out.push((format!("{} always-fires", head), format!("RandomChance({}) fires even when the generator returns its largest word", p), json!({"chance": p, "tape": []})));
+        if p < 1.0 && fired == total && at_zero == Some(true) && at_max == Some(true) {
+            out.push((format!("{} always-fires", head), format!("RandomChance({}) fires for every generator word of the sweep, including the smallest and the largest one", p), json!({"chance": p, "tape": []})));
         }
     } else if undrawn > 0 {
         // decided without randomness: only legitimate for p = 0 or p = 1
